@@ -344,6 +344,7 @@ def run_check(pid, tier, seed, workers, examples):
     # replay tier: committed witnesses of known / fixed findings are re-run every time
     rep = K.replay_witnesses(pid, mod, known)
     merged['labels']['witness replays'] = rep['n']
+    merged['labels']['regression corpus replays'] = rep.get('regress', 0)
     for f in rep['known']:
         merged['known'][f] = merged['known'].get(f, 0) + 1
     fails.extend(rep['fails'])
